@@ -165,6 +165,11 @@ type Engine struct {
 	// pre-dates a concurrent DDL commit could overwrite the cache with a
 	// stale schema view (the doc's "stale-view race").
 	cachedCatalogVersion atomic.Uint64
+
+	// ddlCommitsInFlight counts DDL transactions between their store commit
+	// and the invalidation of the cached catalog: meanwhile the cache may be
+	// older than a snapshot taken by a new transaction
+	ddlCommitsInFlight atomic.Int64
 }
 
 // Sequence represents a named auto-incrementing counter
@@ -461,6 +466,17 @@ func (e *Engine) NewTx(ctx context.Context, opts *TxOptions) (*SQLTx, error) {
 		// See immudb-improvements.md "Open question #2".
 		if err := e.seedCatalogReadSet(ctx, tx, catalog.GetTables()); err != nil {
 			return nil, err
+		}
+
+		// The snapshot of the transaction is fixed now. A DDL committed after
+		// the cache was read but before the snapshot was taken is not seen
+		// by the MVCC validation (it is part of the snapshot): if one may
+		// have been, the catalog is loaded from the snapshot itself
+		if e.ddlCommitsInFlight.Load() > 0 || e.cachedCatalogVersion.Load() != openVersion {
+			catalog = newCatalog(e.prefix)
+			if err := catalog.load(ctx, tx); err != nil {
+				return nil, err
+			}
 		}
 	} else {
 		CatalogCacheMissObserver()
